@@ -6,6 +6,7 @@ From Coq Require Import String List Bool Permutation Sorted.
 Import ListNotations.
 Require Import Verif.Determ.SortPerm Verif.Determ.MapOrder Verif.Determ.MapOrderProps Verif.Determ.Classified Verif.Gen.MapRanges.
 Require Verif.Determ.Generators.
+Require Import Verif.Determ.SortSites Verif.Determ.SortSitesProps Verif.Determ.SortClassified.
 
 (* base lemma: two sorted permutations of a list under a total order are equal (strings in Go's byte order) *)
 Theorem C19_sort_perm_unique : forall l1 l2 : list string,
@@ -128,3 +129,86 @@ Theorem C19_imports_schedule_independent : forall g root s1 s2,
   Imports.Current.final_cur g root 0 s1 = Imports.Current.final_cur g root 0 s2.
 Proof. exact Generators.imports_schedule_independent. Qed.
 Print Assumptions C19_imports_schedule_independent.
+
+(* SORT COMPARATORS (Determ/SortSites.v): sort.Slice / sort.Sort modelled as ANY permutation of the input that is consistent
+   with the comparator; the stable variants additionally keep the input order inside every class of tied elements.
+   Comparators are lexicographic chains `if a.k1 != b.k1 { return a.k1 < b.k1 }; ...; return a.kn < b.kn`. *)
+
+(* TOTAL ORDER ON KEY => unique result: the slice filled in any two orders (two map-iteration oracles), any two outcomes
+   the sort may produce, stable or not - equal, as soon as ONE link of the chain is unique in the slice *)
+Theorem C19_sort_total_comparator_unique : forall (A:Type) (cs:list (component A)), Forall wf cs ->
+  forall in1 in2 out1 out2 : list A,
+    Permutation in1 in2 -> Exists (fun c => inj_on c in1) cs ->
+    sort_result (less cs) in1 out1 -> sort_result (less cs) in2 out2 -> out1 = out2.
+Proof. exact lex_total_unique. Qed.
+Print Assumptions C19_sort_total_comparator_unique.
+
+(* PARTIAL comparator (ties allowed) + STABLE sort: the result is a function of the input order inside the tie classes,
+   hence deterministic when the slice is filled in a deterministic order *)
+Theorem C19_sort_stable_input_determines_result : forall (A:Type) (c:component A), wf c ->
+  forall in1 in2 out1 out2 : list A,
+    (forall x, filter (tied (ltof c) x) in1 = filter (tied (ltof c) x) in2) ->
+    stable_result (ltof c) in1 out1 -> stable_result (ltof c) in2 out2 -> out1 = out2.
+Proof. exact stable_result_unique. Qed.
+Print Assumptions C19_sort_stable_input_determines_result.
+
+(* ... and a stable result exists and is what the executable stable sort of the correspondence computes *)
+Theorem C19_sort_stable_model_is_stable_result : forall (A:Type) (c:component A), wf c ->
+  forall l, stable_result (ltof c) l (go_sort_stable (ltof c) l).
+Proof. exact go_sort_stable_is_stable_result. Qed.
+Print Assumptions C19_sort_stable_model_is_stable_result.
+
+(* PARTIAL comparator, unstable sort: for ANY comparator and ANY two distinct elements that tie, both orders are outcomes
+   the specification of sort.Slice allows - even for one fixed input *)
+Theorem C19_sort_partial_unstable_refuted : forall (A:Type) (lt:A -> A -> bool) a b, a <> b -> tied lt a b = true ->
+  sort_result lt [a; b] [a; b] /\ sort_result lt [a; b] [b; a] /\ [a; b] <> [b; a].
+Proof. exact sort_partial_not_unique. Qed.
+Print Assumptions C19_sort_partial_unstable_refuted.
+
+(* PARTIAL comparator on MAP-ORDERED input, even with a stable sort: two iteration oracles, two results - for ANY
+   comparator and ANY tied pair; and the witness of the code before fix C19-11 (two declarations on line 3 of two files,
+   syslutil.NamedTypes.Less compared the line only) *)
+Theorem C19_sort_partial_on_map_order_refuted : forall (A:Type) (lt:A -> A -> bool) a b, a <> b -> tied lt a b = true ->
+  exists in1 in2 out1 out2, Permutation in1 in2 /\
+    stable_result lt in1 out1 /\ stable_result lt in2 out2 /\ out1 <> out2.
+Proof. exact stable_partial_on_map_order_refuted. Qed.
+Print Assumptions C19_sort_partial_on_map_order_refuted.
+
+Theorem C19_sort_by_line_on_map_order_refuted : exists (in1 in2 out1 out2:list (nat * string)),
+  Permutation in1 in2 /\ stable_result (ltof by_line) in1 out1 /\ stable_result (ltof by_line) in2 out2 /\ out1 <> out2.
+Proof. exact sort_by_line_on_map_order_refuted. Qed.
+Print Assumptions C19_sort_by_line_on_map_order_refuted.
+
+(* OBLIGATIONS AGAINST THE CURRENT SOURCE (Gen.MapRanges.sort_sites / package_vars) *)
+Theorem C19_sorts_classified : forallb site_ok sort_sites = true.
+Proof. exact sort_sites_classified. Qed.
+Print Assumptions C19_sorts_classified.
+
+Theorem C19_reviewed_sorts_exist :
+  forallb (fun r => existsb (fun s => String.eqb (ss_fn s) (fst r) && negb (total_on_key s)) sort_sites) reviewed_sorts = true.
+Proof. exact reviewed_sorts_exist. Qed.
+Print Assumptions C19_reviewed_sorts_exist.
+
+Theorem C19_required_sorts_total :
+  forallb (fun r => existsb (fun s => String.eqb (ss_fn s) (fst r) && total_on_key s && Nat.eqb (length (ss_keys s)) (snd r)) sort_sites)
+          required_total = true.
+Proof. exact required_sorts_total. Qed.
+Print Assumptions C19_required_sorts_total.
+
+Theorem C19_written_package_vars_reviewed : map pv_name (filter pv_written package_vars) = reviewed_written_vars.
+Proof. exact written_package_vars_reviewed. Qed.
+Print Assumptions C19_written_package_vars_reviewed.
+
+(* over the table: every comparator classified TOTAL-ORDER-ON-KEY gives one result whatever order the slice was filled in *)
+Theorem C19_total_sites_unique_result : forall s, In s sort_sites -> total_on_key s = true ->
+  forall (A:Type) (cs:list (component A)) (in1 in2 out1 out2:list A),
+    Forall wf cs -> realises s cs in1 -> Permutation in1 in2 ->
+    sort_result (less cs) in1 out1 -> sort_result (less cs) in2 out2 -> out1 = out2.
+Proof. exact total_sites_unique_result. Qed.
+Print Assumptions C19_total_sites_unique_result.
+
+Theorem C19_every_sort_total_or_reviewed : forall s, In s sort_sites ->
+  total_on_key s = true \/ review_of (ss_fn s) = Some UniqueKey \/
+  (review_of (ss_fn s) = Some StableFixedSource /\ stable_api (ss_api s) = true /\ map_ordered (ss_src s) = false).
+Proof. exact every_sort_total_or_reviewed. Qed.
+Print Assumptions C19_every_sort_total_or_reviewed.
